@@ -719,7 +719,7 @@ func RunRibHistory(name string, cfg *RibCfg, steps []Step) (*Trace, error) {
 					}
 				}()
 				if s.Gap != nil && (s.Kind == "add" || s.Kind == "del") {
-					var once atomic.Bool
+					var once, yInside atomic.Bool
 					yDone := make(chan string, 1)
 					r.SetPostChangeHook(func(constants.OpType, int64, string, ygot.ValidatedGoStruct) {
 						if once.Swap(true) {
@@ -766,6 +766,14 @@ func RunRibHistory(name string, cfg *RibCfg, steps []Step) (*Trace, error) {
 					r.SetPostChangeHook(func(ot constants.OpType, ts int64, ni string, e ygot.ValidatedGoStruct) {
 						h.fn(ot, ts, ni, e)
 						if once.Swap(true) {
+							// a later notification of the same Flush: has the second writer's
+							// operation returned meanwhile? Then it ran inside the Flush
+							select {
+							case l := <-yDone:
+								yDone <- l
+								yInside.Store(true)
+							default:
+							}
 							return
 						}
 						go func() {
@@ -789,6 +797,15 @@ func RunRibHistory(name string, cfg *RibCfg, steps []Step) (*Trace, error) {
 						}
 					}
 					err := r.Flush(nis)
+					// the second writer's operation is written down where it was acknowledged: before
+					// the Flush if it had already returned when the Flush did (it ran inside it)
+					if yInside.Load() {
+						l := <-yDone
+						add("%s", l)
+						add("rib.flush %s => %s", LS(nis), B(err == nil))
+						r.SetPostChangeHook(h.fn)
+						return
+					}
 					add("rib.flush %s => %s", LS(nis), B(err == nil))
 					if !once.Load() {
 						add("%s", runOp(*s.Gap))
